@@ -267,6 +267,39 @@ def run(ctx):
     tails = [n for n in ast.walk(cc.node) if isinstance(n, ast.If) and "%s.endswith('-')" % p in norm(n.test)]
     ok = len(tails) == 1 and any(norm(s) == "%s += ' '" % p for s in tails[0].body) and whiles and tails[0].lineno > whiles[0].lineno
     r.check("R20.6", ok, "trailing-dash-after-loop", cc.where, "the trailing-dash fix-up is missing or does not follow the '--' loop")
+    # the fix-up runs under either flag: with preventDoubleDashComments alone (the lxml builder's configuration) a comment that
+    # ends in '-' would otherwise end in '--' once the closing '-->' is written
+    from ..cfg import CFG
+    from ..partition import MiniInterp, Opaque
+    ccfg = CFG(cc.node)
+    fix = [n for n in ccfg.stmt_nodes() if n.kind == "stmt" and norm(n.ast) == "%s += ' '" % p]
+    flag_tests = [n for n in ccfg.nodes if n.kind == "test" and "self.prevent" in norm(n.ast)]
+    if len(fix) == 1 and flag_tests:
+        for label, pdd, pdace in (("preventDoubleDashComments alone", True, False), ("preventDashAtCommentEnd alone", False, True)):
+            def hook(node, local, pdd=pdd, pdace=pdace):
+                t = norm(node)
+                if t == "self.preventDoubleDashComments":
+                    return pdd
+                if t == "self.preventDashAtCommentEnd":
+                    return pdace
+                return NotImplemented
+            interp = MiniInterp(ce, cc.module, expr_hook=hook)
+            blocked = None
+            for t in flag_tests:
+                names = {norm(x) for x in ast.walk(t.ast) if isinstance(x, ast.Attribute)}
+                if not names <= {"self.preventDoubleDashComments", "self.preventDashAtCommentEnd"}:
+                    continue
+                try:
+                    val = bool(interp.eval_guard(t.ast, {"self": Opaque("self")}))
+                except AnalysisError:
+                    continue
+                if ccfg.dominated_by(fix[0], lambda n, lab, t=t, val=val: n is t and lab is (not val)):
+                    blocked = t
+            r.check("R20.6", blocked is None, "trailing-dash-under::%s" % label.split()[0], "%s:%d" % (REL, fix[0].ast.lineno),
+                    "with %s the trailing-dash fix-up cannot run (it is guarded by `%s`): a comment ending in '-' is left as it is"
+                    % (label, norm(blocked.ast) if blocked else ""), detail={"configuration": label})
+    else:
+        r.idiom("R20.6", False, "trailing-dash-under-flags", cc.where, "the trailing-dash fix-up / its flag tests were not found")
 
 
 def thorough(ctx):
